@@ -207,8 +207,12 @@ def final_checks(sc, state_tree, history, p):
         bad(f"call_raised:{r1['error'].split(':')[0]}", r1["error"])
         return None
     t1 = sc.local_tree()
-    res = r1["result"]
+    res = dict(r1["result"])
     ops1 = r1["ops"]
+    missing = [k for k in ("was_copied", "was_deleted") if k not in res]
+    if missing:
+        bad("result_untruthful", f"result object lacks {missing}: {res}")
+        return None
     if crashfs.tree(os.path.join(sc.root, "global")) != sc.source_tree:
         bad("source_modified", "the global folder changed")
     if sc.initial == "manual":
